@@ -5,9 +5,10 @@ V = os.path.dirname(os.path.dirname(os.path.abspath(__file__)))
 man = json.load(open(os.path.join(V, "MANIFEST.json")))
 props = [json.loads(l)["id"] for l in open(os.path.join(V, "properties.jsonl"))]
 checks, na = [], []
+ready = set(open(os.path.join(V, "checks", "ready.txt")).read().split())
 for pid in props:
     p = os.path.join(V, "checks", pid + ".json")
-    if os.path.exists(p):
+    if os.path.exists(p) and pid in ready:
         c = json.load(open(p))
         if c.get("not_applicable"):
             na.append({"property_id": pid, "reason": c["not_applicable"]}); continue
